@@ -67,12 +67,20 @@ func cmdMigrate(args []string) {
 	}{
 		{"leaf", []error{&mig.T1{}, &mig.T2{}, &mig.T3{}}, []string{"*mig.T1", "*mig.T2", "*mig.T3"}},
 		{"wrapper", []error{&mig.W1{}, &mig.W2{}, &mig.W3{}}, []string{"*mig.W1", "*mig.W2", "*mig.W3"}},
+		// moved types: the first rename changes the import path only (same package name, same type name)
+		{"moved-leaf", []error{&mig.T1{}, &mig.T2{}, &mig.T3{}}, []string{"*mig.T1", "*mig.T2", "*mig.T3"}},
 	}
 	for _, fam := range families {
 		for n := 1; n <= 3; n++ {
 			// chain k0 -> T1 -> ... -> Tn ; edge i renames (i-1) to i
 			var edges []regStep
-			edges = append(edges, regStep{"old/pkg", "*pkg.T0", fam.types[0]})
+			origName := "old/pkg/*pkg.T0"
+			if strings.HasPrefix(fam.kind, "moved") {
+				origName = "an/older/import/path/mig/" + fam.names[0]
+				edges = append(edges, regStep{"an/older/import/path/mig", fam.names[0], fam.types[0]})
+			} else {
+				edges = append(edges, regStep{"old/pkg", "*pkg.T0", fam.types[0]})
+			}
 			for i := 1; i < n; i++ {
 				edges = append(edges, regStep{migPkg, fam.names[i-1], fam.types[i]})
 			}
@@ -138,7 +146,7 @@ func cmdMigrate(args []string) {
 						continue
 					}
 					for i := 0; i < n; i++ {
-						if keys[fam.names[i]] != "old/pkg/*pkg.T0" {
+						if keys[fam.names[i]] != origName {
 							fail(id, fmt.Sprintf("after registering the chain in order %v, type %s is encoded under %q instead of the original name", ord, fam.names[i], keys[fam.names[i]]), fmt.Sprint(reg))
 							break
 						}
@@ -193,10 +201,28 @@ func cmdMigrate(args []string) {
 		defer restoreM()
 		k := errbase.TypeKey(t1key(kind))
 		if v.mk != nil {
+			// the type has its own codec (registered under its type key, as documented): the
+			// decoder relies on the payload its encoder sends
 			if kind == "leaf" {
-				errbase.RegisterLeafDecoder(k, func(_ context.Context, msg string, _ []string, _ proto.Message) error { return v.mk(kind, msg, nil) })
+				errbase.RegisterLeafEncoder(k, func(_ context.Context, err error) (string, []string, proto.Message) {
+					return err.Error(), nil, &errorspb.StringPayload{Msg: "P:" + err.Error()}
+				})
+				errbase.RegisterLeafDecoder(k, func(_ context.Context, msg string, _ []string, pl proto.Message) error {
+					p, ok := pl.(*errorspb.StringPayload)
+					if !ok || p.Msg != "P:"+msg {
+						return nil
+					}
+					return v.mk(kind, msg, nil)
+				})
 			} else {
-				errbase.RegisterWrapperDecoder(k, func(_ context.Context, cause error, _ string, _ []string, _ proto.Message) error {
+				errbase.RegisterWrapperEncoder(k, func(_ context.Context, err error) (string, []string, proto.Message) {
+					return "", nil, &errorspb.StringPayload{Msg: "PW"}
+				})
+				errbase.RegisterWrapperDecoder(k, func(_ context.Context, cause error, _ string, _ []string, pl proto.Message) error {
+					p, ok := pl.(*errorspb.StringPayload)
+					if !ok || p.Msg != "PW" {
+						return nil
+					}
 					return v.mk(kind, "", cause)
 				})
 			}
@@ -204,8 +230,10 @@ func cmdMigrate(args []string) {
 		defer func() {
 			if kind == "leaf" {
 				errbase.RegisterLeafDecoder(k, nil)
+				errbase.RegisterLeafEncoder(k, nil)
 			} else {
 				errbase.RegisterWrapperDecoder(k, nil)
+				errbase.RegisterWrapperEncoder(k, nil)
 			}
 		}()
 		f()
